@@ -10,6 +10,11 @@ R38b In handle_RegisterEngineMsg, register_engine_data and every success reply a
      membership in the channel map; the dispatcher closes a second channel for a connected id before
      it writes the channel map, and the channel map entry is deleted on disconnect.
 Decides the encoding shape and guard dominance; not the behaviour of urllib beyond the stated table.
+R38c only the owner's disconnect releases an id: on_client_disconnect may remove the entry of an engine id only if that id's
+     *mapped channel is the disconnecting channel* - established either by the scan `for id, ch in map.items(): if ch ==
+     channel` or through a reverse (channel -> id) map, in which case every insertion into that reverse map must be
+     dominated by the same "id not connected yet" guard as the insertion into the forward map (otherwise the disconnect
+     of a *rejected* duplicate connection evicts the connected owner, and the id can be registered a second time).
 """
 from __future__ import annotations
 
@@ -174,3 +179,66 @@ def run(ctx) -> None:
         ctx.ok("R38b", f"on_client_disconnect: {kills[0].text()}")
     else:
         ctx.fail("R38b", dd, dd.node, "on_client_disconnect: release of channel map entry", "channel map entry never released")
+
+    # ---- R38c
+    ctx.rule("R38c", "an id is released only by the disconnect of the channel it is mapped to")
+    disc_par = dd.node.args.args[1].arg
+    ddefs = {}
+    from ..util import local_single_defs as _lsd
+    ddefs = _lsd(dd)
+    for k in kills:
+        inst = f"on_client_disconnect: {k.text()} releases the id mapped to the disconnecting channel"
+        # the key that is removed
+        key = None
+        a = k.ast
+        if isinstance(a, ast.Delete) and isinstance(a.targets[0], ast.Subscript):
+            key = a.targets[0].slice
+        else:
+            for c in k.calls():
+                if call_attr(c) == "pop" and c.args:
+                    key = c.args[0]
+        if not isinstance(key, ast.Name):
+            raise AnchorError("on_client_disconnect: released key is not a local")
+        # (1) scan form: the key local is assigned inside a loop over the forward map's items under `value == channel`
+        scan_ok = False
+        for lp in walk_no_nested(dd.node):
+            if isinstance(lp, ast.For) and "_engine_id_channel_map.items()" in norm(lp.iter) and isinstance(lp.target, ast.Tuple):
+                kv, vv = norm(lp.target.elts[0]), norm(lp.target.elts[1])
+                for iff in ast.walk(lp):
+                    if isinstance(iff, ast.If) and norm(iff.test) in (f"{vv} == {disc_par}", f"{disc_par} == {vv}", f"{vv} is {disc_par}"):
+                        if any(isinstance(x, ast.Assign) and norm(x.targets[0]) == key.id and norm(x.value) == kv for x in ast.walk(iff)):
+                            scan_ok = True
+        if scan_ok:
+            ctx.ok("R38c", inst)
+            continue
+        # (2) reverse-map form: key = self.<rev>.pop(channel, ..) / .get(channel) / [channel]
+        kd = ddefs.get(key.id)
+        rev = None
+        if isinstance(kd, ast.Call) and call_attr(kd) in ("pop", "get") and kd.args and norm(kd.args[0]) == disc_par \
+                and isinstance(kd.func.value, ast.Attribute):
+            rev = kd.func.value.attr
+        elif isinstance(kd, ast.Subscript) and norm(kd.slice) == disc_par and isinstance(kd.value, ast.Attribute):
+            rev = kd.value.attr
+        if rev is None:
+            raise AnchorError("on_client_disconnect: how the released id is tied to the disconnecting channel was not understood")
+        bad_ins = None
+        n_ins = 0
+        for fn in prog.iter_functions():
+            gg = cfg_of(fn) if any(isinstance(t, ast.Subscript) and isinstance(t.value, ast.Attribute) and t.value.attr == rev
+                                   for x in walk_no_nested(fn.node) if isinstance(x, ast.Assign) for t in x.targets) else None
+            if gg is None:
+                continue
+            for n in gg.nodes:
+                if n.kind == "stmt" and isinstance(n.ast, ast.Assign) and any(
+                        isinstance(t, ast.Subscript) and isinstance(t.value, ast.Attribute) and t.value.attr == rev for t in n.ast.targets):
+                    n_ins += 1
+                    facts = facts_at(gg, n)
+                    if not any("in self._engine_id_channel_map" in a_ and not pol for a_, pol in facts):
+                        bad_ins = (fn, n)
+        if bad_ins is not None or n_ins == 0:
+            fn, n = bad_ins if bad_ins else (dd, k)
+            ctx.fail("R38c", fn, n.ast, inst, f"the id is looked up in the reverse map self.{rev}, which is filled for a connecting channel "
+                     "before (or without) the check that its id is not connected yet: the disconnect of a rejected duplicate "
+                     "connection removes the entry of the engine that is still connected, and the id can then be registered again")
+        else:
+            ctx.ok("R38c", inst)
